@@ -5,6 +5,7 @@
 package c03
 
 import (
+	"strconv"
 	"context"
 	"fmt"
 	"sort"
@@ -45,6 +46,7 @@ type Val struct {
 	Phase string   `json:"phase"`
 	Fins  []string `json:"fins"`
 	Toks  []string `json:"toks"`
+	Cnt   int      `json:"cnt"` // number of mutator applications the value went through (label "cnt")
 }
 
 func absent() Val { return Val{Phase: "running", Fins: []string{}, Toks: []string{}} }
@@ -58,6 +60,12 @@ func project(r resource.Resource) Val {
 	v := Val{Ver: o.Ver, Owner: o.Owner, Phase: o.Phase, Fins: o.Fins, Toks: []string{}}
 
 	for _, l := range o.Labels {
+		if l[0] == "cnt" {
+			v.Cnt, _ = strconv.Atoi(l[1])
+
+			continue
+		}
+
 		v.Toks = append(v.Toks, l[0])
 	}
 
@@ -324,6 +332,14 @@ var key = vh.Key{NS: "n1", Typ: vh.IntType, ID: "r"}
 func tokMutator(tok string) func(resource.Resource) error {
 	return func(r resource.Resource) error {
 		r.Metadata().Labels().Set(tok, "1")
+
+		// not idempotent on purpose: a mutation applied twice to the same object shows in the count
+		n := 0
+		if cur, ok := r.Metadata().Labels().Get("cnt"); ok {
+			n, _ = strconv.Atoi(cur)
+		}
+
+		r.Metadata().Labels().Set("cnt", strconv.Itoa(n+1))
 
 		return nil
 	}
